@@ -153,14 +153,14 @@ theorem stripNsList_cons_ns {d : Tree} (h : d.value.category = .namespace) (l : 
   simp [stripNsList, h]
 
 /-- Editing declarations does not change the tree with every namespace node erased. -/
-theorem DeclEdit.stripNs_eq {a b : Tree} (h : DeclEdit a b) : stripNs a = stripNs b := by
+theorem DeclEdit.stripNs_eq {a b : Tree} (h : DeclEdit a b) : cmpStripNs a = cmpStripNs b := by
   induction h with
-  | add v pre post d hd => simp only [stripNs, stripNsList_append, stripNsList_cons_ns hd]
-  | remove v pre post d hd => simp only [stripNs, stripNsList_append, stripNsList_cons_ns hd]
+  | add v pre post d hd => simp only [cmpStripNs, stripNsList_append, stripNsList_cons_ns hd]
+  | remove v pre post d hd => simp only [cmpStripNs, stripNsList_append, stripNsList_cons_ns hd]
   | change v pre post d d' hd hd' =>
-    simp only [stripNs, stripNsList_append, stripNsList_cons_ns hd, stripNsList_cons_ns hd']
+    simp only [cmpStripNs, stripNsList_append, stripNsList_cons_ns hd, stripNsList_cons_ns hd']
   | child v pre post k k' hk ih =>
-    simp only [stripNs, stripNsList_append, stripNsList, hk.value_eq, ih]
+    simp only [cmpStripNs, stripNsList_append, stripNsList, hk.value_eq, ih]
   | refl a => rfl
   | trans _ _ ih₁ ih₂ => exact ih₁.trans ih₂
 
